@@ -42,11 +42,13 @@ PROPS['C02'] = dict(
     assumptions=[EXACT, SAN, 'NaN abscissae are outside the statement ("all real x") and not generated'],
 )
 PROPS['C15'] = dict(
-    units=[dict(target=T('h_pred'), quick=dict(scale=1.0), thorough=dict(scale=6.0, shards=16))],
+    units=[dict(target=T('h_pred'), quick=dict(scale=1.0), thorough=dict(scale=6.0, shards=16)),
+           dict(target=T('h_hist', parts=4), quick=dict(args=['--focus', 'C15'], scale=1.0, shards=2), thorough=dict(args=['--focus', 'C15', '--max-size', '200'], scale=4.0, shards=16))],
     rule=('random spline pairs by constructed placement class (identical, nested, partial, touching, gap, one/both interval-free), orders 0..4, zero coefficients in none/some/all intervals, Q and double; '
           'for equality b is derived from a by: independent / copy / one coefficient changed / shifted window / equal grid in a distinct object / one grid point moved / both interval-free. '
           'Oracles: isZero iff reference function zero (cross-checked by evaluating at order+1 points per interval); checkOverlap iff index sets share two consecutive points iff product of coefficient-generic splines non-zero; '
-          '== iff grids equal and windows equal-or-both-empty and coefficients identical; reflexive, symmetric, copy, != negation. Non-trivial: zero function with intervals or zero-masked intervals, non-identical placement, or derived relation.'),
+          '== iff grids equal and windows equal-or-both-empty and coefficients identical; reflexive, symmetric, copy, != negation. Non-trivial: zero function with intervals or zero-masked intervals, non-identical placement, or derived relation. '
+          'Second unit: the history interpreter with the C15 oracle - after EVERY step of a generated call history (predicate queries followed by scaling by zero, negation, assignments, moves, in-place arithmetic) every live spline and a fresh copy of it must answer isZero() according to its stored coefficients, compare equal to itself and to its copy, and overlap itself iff it has intervals.'),
     technique='rapidcheck generation against set/function models of the predicates',
     level_text='Generated-input search against independent models of the three predicates, both directions (iff) checked; sampling, not proof.',
     level_note='Trusted: reference model and placement classifier; NaN coefficients are outside the statement and not generated (DESIGN 6.11).',
@@ -410,12 +412,12 @@ PROPS['C16'] = dict(
            dict(target=T('h_eval', parts=4), quick=dict(args=['--prefix', 'eval-float', '--property', 'C16'], scale=1.0), thorough=dict(args=['--prefix', 'eval-float', '--property', 'C16'], scale=4.0, shards=8)),
            c16_variants_unit()],
     rule=('the statement\'s well-scaled domain, constructed: grid points k/8 with |x| <= 8, gaps >= 1/8 (classes: near origin, FAR from origin with minimal gaps, strongly non-uniform), orders <= 6 incl. growth, dyadic coefficients and scalars |v| <= 8, so every input is exactly representable in all types. '
-          'Each case is ONE library operation (a+b, a-b incl. cancelling pairs, a*b, a*c, a/c, linearCombination, Dx<0..4>, X<0..2>, evaluation, LinearForm / BilinearForm / application of 8 operator expressions incl. spline factor and commutator) executed in Q and in float/double/long double; '
+          'Each case is ONE library operation (a+b, a-b incl. cancelling pairs, a*b, a*c, a/c, linearCombination, Dx<0..4>, X<0..2>, evaluation, LinearForm / BilinearForm / application of 10 operator expressions incl. spline factor, commutator, a float scalar on wider splines and a non-power-of-two int divisor) executed in float/double/long double and compared with the exact result from the reference model (ref.h + AST interpreter, no library code); '
           'plus whole B-spline generation (orders 0..6, all multiplicity shapes) and evaluation incl. one ulp around grid points. Error measure E = sum_k |c_fl - c_exact| h^k per interval (|v_fl - v_exact| for scalars), bound 2^20 * eps * S, S = absolute-value shadow (same formula on |coefficients|, (|u|+|xm|)^n for X<n>). '
           'Configuration: transcripts of all values (hex-float) with and without BSPLINE_ADD_TEST_CHECKS must be byte-identical; g++ -O0/-O2/-O3 and clang++ -O3 builds must satisfy the same bound. Observed maxima (log2 of eps units) are reported in metrics_max. Non-trivial: order >= 2 and (|x| >= 4 or gap ratio >= 8 or cancelling operands).'),
     technique='rapidcheck generation in the well-scaled domain; differential against the exact rational run of the same operation with an absolute-value shadow bound; configuration differential (self-checks on/off, optimisation levels, two compilers)',
     level_text='Generated-input search with an exact reference and a stated bound with measured head-room (> 2^13 on the unchanged tree); the far-from-origin / minimal-gap class, where a computation about a distant point costs 2^21..2^42, is weighted explicitly. Sampling, not proof.',
-    level_note='The statement does not define "terms involved"; the absolute-value shadow in midpoint coordinates is used (DESIGN 6.6). Exact results come from the library instantiated with Q, itself verified by C01-C07.',
+    level_note='The statement does not define "terms involved"; the absolute-value shadow in midpoint coordinates is used (DESIGN 6.6). Exact results come from the reference model, not from the library.',
     assumptions=[EXACT, 'IEEE-754 arithmetic, no -ffast-math; x87 long double'],
 )
 
